@@ -40,7 +40,7 @@ fn case(code: i64, p: &[i128], ptw: &[i128]) -> (Vec<Vec<i128>>, Vec<Vec<i128>>)
             let mut pt = LWEPlaintext::alloc(Base2K(h.pb as u32), TorusPrecision((h.psize * h.pb) as u32));
             set_col(pt.data_mut(), 0, ptw);
             let mut ct = LWE::alloc(Degree(n as u32), Base2K(h.b as u32), TorusPrecision((h.size * h.b) as u32));
-            let mut sc: ScratchOwned<BE> = ScratchOwned::alloc(module.lwe_encrypt_sk_tmp_bytes(&ct).max(module.lwe_decrypt_tmp_bytes(&ct)) + 4096);
+            let mut sc: ScratchOwned<BE> = garbage_scratch::<BE>(module.lwe_encrypt_sk_tmp_bytes(&ct).max(module.lwe_decrypt_tmp_bytes(&ct)) + 4096);
             module.lwe_encrypt_sk(&mut ct, &pt, &sk, &noise, &mut Source::new(sxe), &mut Source::new(sxa), sc.borrow());
             let mut dec = LWEPlaintext::alloc(Base2K(h.db as u32), TorusPrecision((h.dsize * h.db) as u32));
             module.lwe_decrypt(&ct, &mut dec, &sk, sc.borrow());
@@ -54,15 +54,26 @@ fn case(code: i64, p: &[i128], ptw: &[i128]) -> (Vec<Vec<i128>>, Vec<Vec<i128>>)
         let (sk, s) = glwe_secret(n, h.rank, h.kind, h.param, &sxs);
         let mut skp = module.glwe_secret_prepared_alloc(Rank(h.rank as u32));
         module.glwe_secret_prepare(&mut skp, &sk);
-        let mut pt = GLWEPlaintext::alloc(Degree(n as u32), Base2K(h.pb as u32), TorusPrecision((h.psize * h.pb) as u32));
-        set_col(&mut pt.data, 0, ptw);
+        let mut pt = GLWEPlaintext::alloc(Degree(n as u32), Base2K(h.pb as u32), TorusPrecision((h.psize.max(1) * h.pb) as u32));
+        if h.psize > 0 { set_col(&mut pt.data, 0, ptw); }
         let li = GLWELayout { n: Degree(n as u32), base2k: Base2K(h.b as u32), k: TorusPrecision((h.size * h.b) as u32), rank: Rank(h.rank as u32) };
         let mut ct = GLWE::alloc_from_infos(&li);
         let mut dec = GLWEPlaintext::alloc(Degree(n as u32), Base2K(h.db as u32), TorusPrecision((h.dsize * h.db) as u32));
         let bytes = module.glwe_encrypt_sk_tmp_bytes(&li).max(module.glwe_decrypt_tmp_bytes(&li)).max(module.glwe_encrypt_pk_tmp_bytes(&li));
-        let mut sc: ScratchOwned<BE> = ScratchOwned::alloc(bytes + 4096);
+        let mut sc: ScratchOwned<BE> = garbage_scratch::<BE>(bytes + 4096);
         let ua = raw_u64(if code == 1003 { &sxap } else { &sxa }, h.rank * h.size * n);
+        // several encryptions share one scratch arena: a warm-up encryption (other seeds) dirties it before the one under test
+        if matches!(code, 1001 | 1004 | 1005) && h.pb == h.b {
+            let mut warm = GLWE::alloc_from_infos(&li);
+            module.glwe_encrypt_sk(&mut warm, &pt, &skp, &noise, &mut Source::new(flip_seed(&sxe)), &mut Source::new(flip_seed(&sxa)), sc.borrow());
+        }
         match code {
+            1005 => {
+                module.glwe_encrypt_zero_sk(&mut ct, &skp, &noise, &mut Source::new(sxe), &mut Source::new(sxa), sc.borrow());
+                module.glwe_decrypt(&ct, &mut dec, &skp, sc.borrow());
+                let e = replay_error(&module, n, h.b, h.size, noise, &mut Source::new(sxe));
+                (vec![to128(&s), ua, to128(&e)], vec![all_cols(ct.data()), col_words(&dec.data, 0), vec![limb as i128, slog]])
+            }
             1001 => {
                 module.glwe_encrypt_sk(&mut ct, &pt, &skp, &noise, &mut Source::new(sxe), &mut Source::new(sxa), sc.borrow());
                 module.glwe_decrypt(&ct, &mut dec, &skp, sc.borrow());
@@ -101,7 +112,21 @@ fn case(code: i64, p: &[i128], ptw: &[i128]) -> (Vec<Vec<i128>>, Vec<Vec<i128>>)
 
 pub fn exec(r: &Rec) -> Out {
     let r2 = r.clone();
-    guard(move || case(r2.code, &r2.ps, &r2.vs[0]).1)
+    if r2.code == 1006 {
+        // public-key encryption + decryption on a zeroed scratch arena and under two garbage fills: [[1]] iff all outputs coincide
+        return guard(move || {
+            use std::sync::atomic::Ordering;
+            FILL.store(0, Ordering::Relaxed);   // zeroed arena
+            let z = case(1003, &r2.ps, &r2.vs[0]).1;
+            FILL.store(0x5EED_0001, Ordering::Relaxed);
+            let a = case(1003, &r2.ps, &r2.vs[0]).1;
+            FILL.store(0xC0FF_EE77_1234_5678, Ordering::Relaxed);
+            let b = case(1003, &r2.ps, &r2.vs[0]).1;
+            FILL.store(0x5EED_0001, Ordering::Relaxed);
+            vec![vec![(a == b && a == z) as i128]]
+        });
+    }
+    guard(move || two_fills(|| case(r2.code, &r2.ps, &r2.vs[0]).1))
 }
 
 fn log2_ceil(x: usize) -> usize { if x <= 1 { 0 } else { (usize::BITS - (x - 1).leading_zeros()) as usize } }
@@ -111,11 +136,11 @@ pub fn generate(tier: &str, seed: u64) -> Vec<Rec> {
     let mut out = Vec::new();
     let reps = if tier == "thorough" { 4000 } else { 560 };
     for it in 0..reps {
-        let code = match it % 10 { 0..=4 => 1001, 5 | 6 => 1002, 7 | 8 => 1003, _ => 1004 };
+        let code = match it % 10 { 0..=3 => 1001, 4 => 1005, 5 | 6 => 1002, 7 | 8 => 1003, _ => 1004 };
         let be = rng.range(1, 4) as i128;
         let n = if code == 1002 { rng.pick(&[1usize, 2, 3, 7, 8, 16, 31, 64]) }
                 else if tier == "thorough" && rng.below(40) == 0 { 256 } else { 1usize << rng.range(3, 6) };
-        let rank = if code == 1002 { 1 } else { rng.range(0, 3) as usize };
+        let rank = if code == 1002 { 1 } else if rng.below(4) == 0 { 0 } else { rng.range(0, 3) as usize };
         // secret distribution and an upper bound of its 1-norm
         let kind = rng.below(6) as i128;
         let (param, hw) = match kind {
@@ -132,9 +157,9 @@ pub fn generate(tier: &str, seed: u64) -> Vec<Rec> {
         // noise precision: anywhere in the ciphertext, mostly not a multiple of the radix
         let nk = match rng.below(4) { 0 => size * b, _ => rng.range(1, (size * b) as i64) as usize };
         let nkp = match rng.below(3) { 0 => nk, _ => rng.range(1, (size * b) as i64) as usize };
-        let psize = match rng.below(4) { 0 => size, 1 => size + 1, _ => rng.range(1, size as i64 + 1) as usize };
+        let psize = if code == 1005 { 0 } else { match rng.below(4) { 0 => size, 1 => size + 1, _ => rng.range(1, size as i64 + 1) as usize } };
         // the plaintext handed to encrypt may DECLARE another radix than the ciphertext (the sk paths never look at it)
-        let pb = if rng.below(12) == 0 { let dmax = if be <= 2 { 50 } else { 52 }; rng.range(1, dmax) as usize } else { b };
+        let pb = if code != 1005 && rng.below(12) == 0 { let dmax = if be <= 2 { 50 } else { 52 }; rng.range(1, dmax) as usize } else { b };
         let (dsize, db) = match rng.below(4) {
             0 => (size, b),
             1 => (rng.range(1, 5) as usize, b),
@@ -151,9 +176,11 @@ pub fn generate(tier: &str, seed: u64) -> Vec<Rec> {
         for _ in 0..6 { ps.extend(seed_words(&rng.bytes32())); }
         let pn = if code == 1002 { 1 } else { n };
         let ptw = message(&mut rng, pn, psize, pb, class);
+        // a public key of distribution ZERO: only the independence of the scratch contents is recorded (code 1006)
+        let code = if code == 1003 && kind == 5 { 1006 } else { code };
         let r = Rec::new(code, ps.clone(), vec![ptw.clone()]);
         // derive what the library drew by running the case once (a panic leaves the derived vectors empty)
-        let derived = std::panic::catch_unwind(|| case(code, &ps, &ptw).0).unwrap_or_default();
+        let derived = if code == 1006 { vec![] } else { std::panic::catch_unwind(|| case(code, &ps, &ptw).0).unwrap_or_default() };
         let mut vs = vec![ptw];
         vs.extend(derived);
         out.push(Rec::new(r.code, r.ps, vs));
